@@ -124,6 +124,14 @@ derive Clone, Copy
 @*/
 
 pub const TOTAL_SHREDS: usize = 64;
+/*@ extract src/shredder.rs :: const MAX_DATA_PER_SHRED
+@*/
+/*@ extract src/shredder.rs :: const DATA_SHREDS
+@*/
+/*@ extract src/shredder.rs :: const MAX_DATA_PER_SLICE_AFTER_PADDING
+@*/
+/*@ extract src/shredder.rs :: const MAX_DATA_PER_SLICE
+@*/
 
 
 pub open spec fn row_at(sh: Map<SliceIndex, [Option<ValidatedShred>; TOTAL_SHREDS]>, k: SliceIndex, i: int) -> Option<ValidatedShred> { sh[k]@[i] }
@@ -332,8 +340,21 @@ pub fn verif_slice_entries<'a>(slices: &'a BTreeMap<SliceIndex, ReconstructedSli
         r@.len() == slices@.len(),
         forall|i: int| 0 <= i < r@.len() ==> slices@.contains_key(*(#[trigger] r@[i]).0) && slices@[*r@[i].0] == *r@[i].1,
 { unimplemented!() }
+// `wincode::config::deserialize_exact::<Vec<Transaction>>(&slice.data, DefaultConfig .. with_preallocation_size_limit::<L>())` (R8).
+// TRUSTED model of wincode: a well-formed encoding is rejected only by the preallocation check, which compares
+// `count * size_of::<Transaction>()` (NOT the serialized size) with the limit L; size_of::<Transaction>() = 24 (a Vec<u8>, 64-bit).
+pub uninterp spec fn wf_txs(data: Seq<u8>) -> bool;            // a well-formed encoding of a Vec<Transaction>
+pub uninterp spec fn spec_tx_count(data: Seq<u8>) -> nat;      // its element count
+// the count prefix takes 8 bytes and every transaction at least its own 8-byte length prefix
 #[verifier::external_body]
-pub fn verif_decode_transactions(data: &Vec<u8>) -> (r: Result<Vec<Transaction>, ()>)
+pub proof fn axiom_txs_min_size(data: Seq<u8>)
+    requires wf_txs(data),
+    ensures 8 + 8 * spec_tx_count(data) <= data.len(),
+{}
+pub fn size_of_transaction() -> (r: usize) ensures r == 24 { 24 }   // `size_of::<crate::Transaction>()`
+#[verifier::external_body]
+pub fn verif_decode_transactions(data: &Vec<u8>, prealloc_limit: usize) -> (r: Result<Vec<Transaction>, ()>)
+    ensures (wf_txs(data@) && spec_tx_count(data@) * 24 <= prealloc_limit) ==> r is Ok
 { unimplemented!() }
 #[verifier::external_body]
 pub fn verif_clone_opt_block_id(o: &Option<BlockId>) -> (r: Option<BlockId>)
@@ -615,7 +636,8 @@ rewrite[R4] `for (ind, slice) in &self.slices {` => `let verif_entries = verif_s
 rewrite[R9] `first_slice .parent .clone()` => `verif_clone_opt_block_id(&first_slice.parent)`
 rewrite[R9] `slice.parent.clone()` => `verif_clone_opt_block_id(&slice.parent)`
 rewrite[R9] `new_parent == parent` => `verif_block_id_eq(&new_parent, &parent)`
-rewrite[R8] `let config = DefaultConfig::default().with_preallocation_size_limit::<MAX_DATA_PER_SLICE>(); let mut txs = match wincode::config::deserialize_exact(&slice.data, config) {` => `let mut txs = match verif_decode_transactions(&slice.data) {`
+rewrite?[R8] `size_of::<crate::Transaction>()` => `size_of_transaction()`
+rewrite[R8] `let config = DefaultConfig::default().with_preallocation_size_limit::<VANY>(); let mut txs = match wincode::config::deserialize_exact(&slice.data, config) {` => `let mut txs = match verif_decode_transactions(&slice.data, VANY) {`
 rewrite[R8] `BlockInfo::from(&block)` => `verif_block_info_from(&block)`
 rewrite[R8] `for slice_index in last_slice.until() { self.slices.remove(&slice_index); }` => `verif_remove_slices_until(&mut self.slices, last_slice);`
 requires
@@ -650,6 +672,15 @@ loop 0
             self.last_slice == Some(last_slice) && (self.double_merkle_tree->0).spec_leaves().len() == last_slice.0 + 1,
             block_hash == (self.double_merkle_tree->0).spec_root(),
         decreases verif_entries@.len() - verif_k,
+before `return ReconstructBlockResult::Error;#2`
+        proof {
+            // [C13.every_slice_that_fits_decodes C10.every_slice_that_fits_decodes] the decoder rejects a slice only if its data
+            // is not a well-formed transaction list or exceeds a slice: however MANY (small) transactions a correct leader
+            // packs into MAX_DATA_PER_SLICE bytes, followers decode them and the leader's own fast path does not hit its
+            // `unreachable!` (finding F19: the preallocation limit capped the count at 1365)
+            if wf_txs(slice.data@) && slice.data@.len() <= MAX_DATA_PER_SLICE { axiom_txs_min_size(slice.data@); }
+            assert(!(wf_txs(slice.data@) && slice.data@.len() <= MAX_DATA_PER_SLICE));
+        }
 before `let slot = self.slot;`
         proof {
             if self.last_slice is Some && self.slices@.len() == (self.last_slice->0).0 + 1 {
@@ -1015,7 +1046,8 @@ rewrite[R4] `for (ind, slice) in &self.slices {` => `let verif_entries = verif_s
 rewrite[R9] `first_slice .parent .clone()` => `verif_clone_opt_block_id(&first_slice.parent)`
 rewrite[R9] `slice.parent.clone()` => `verif_clone_opt_block_id(&slice.parent)`
 rewrite[R9] `new_parent == parent` => `verif_block_id_eq(&new_parent, &parent)`
-rewrite[R8] `let config = DefaultConfig::default().with_preallocation_size_limit::<MAX_DATA_PER_SLICE>(); let mut txs = match wincode::config::deserialize_exact(&slice.data, config) {` => `let mut txs = match verif_decode_transactions(&slice.data) {`
+rewrite?[R8] `size_of::<crate::Transaction>()` => `size_of_transaction()`
+rewrite[R8] `let config = DefaultConfig::default().with_preallocation_size_limit::<VANY>(); let mut txs = match wincode::config::deserialize_exact(&slice.data, config) {` => `let mut txs = match verif_decode_transactions(&slice.data, VANY) {`
 rewrite[R8] `BlockInfo::from(&block)` => `verif_block_info_from(&block)`
 rewrite[R8] `for slice_index in last_slice.until() { self.slices.remove(&slice_index); }` => `verif_remove_slices_until(&mut self.slices, last_slice);`
 requires
